@@ -150,6 +150,21 @@ pub fn generate(seed: u64, index: u64, cart_type: u8, rom_code: u8) -> Program {
     image[off..off + a.bytes.len()].copy_from_slice(&a.bytes);
   }
 
+  // ---- "switch under its own feet" routine at 0x4180, the same bytes in every bank: maps
+  // the bank named in 0xC0F2 in mid-block, then reads the window through an absolute address
+  // (the second byte of the per-bank routine at 0x4000, different in every bank) and adds it
+  // to 0xC0F3 - the byte read must be the newly mapped bank's
+  for bank in 1..banks {
+    let mut a = Asm::new(0x4180);
+    a.b(&[0xfa, 0xf2, 0xc0]); // LD A,(0xC0F2)
+    a.ld_a_to(0x2100);
+    a.b(&[0xfa, 0x01, 0x40]); // LD A,(0x4001)
+    a.ld_hl(0xc0f3);
+    a.b(&[0x86, 0x77, 0xc9]); // ADD A,(HL); LD (HL),A; RET
+    let off = bank * 0x4000 + 0x0180;
+    image[off..off + a.bytes.len()].copy_from_slice(&a.bytes);
+  }
+
   // ---- subroutines in bank 0 from 0x1000
   let mut subs: Vec<u16> = Vec::new();
   let mut sub_asm = Asm::new(0x1000);
@@ -484,6 +499,12 @@ pub fn generate(seed: u64, index: u64, cart_type: u8, rom_code: u8) -> Program {
           a.call(bank_routine_addr[r]);
           if rng.chance(1, 2) {
             a.call(0x0fc0); // peek into the bank just mapped, from bank-0 code
+          }
+          if banks > 2 && rng.chance(1, 3) {
+            a.ld_a(1 + rng.below((banks - 1) as u64) as u8);
+            a.ld_a_to(0xc0f2);
+            a.call(0x4180); // the mapped bank replaces itself in mid-block, then reads the window
+            f.bank_switches += 1;
           }
           f.bank_switches += 1;
           desc.push_str("bank ");
